@@ -29,12 +29,17 @@ def case_svd_norm(ctx, rng):
     x, feats = lingen.rand_matrix(ctx, rng)
     if x is None or not x.blocks:
         return
+    if rng.random() < 0.12:
+        f_ = rng.choice([1e-9, 1e-12, 1e-6, 1e7])
+        for s_ in list(x.blocks):
+            x.blocks[s_] = x.blocks[s_] * f_
+        ctx.count("feature", "rescaled-data")
     d = embed(x)
     wit = {"x": describe(x, True)}
     for f in feats:
         ctx.count("feature", f)
     nt = bool({"blocks-of-different-shapes", "rank-deficient-block", "missing-blocks"} & feats)
-    scale = max(1.0, float(np.linalg.norm(d)))
+    scale = float(np.linalg.norm(d)) or 1.0
     # norm
     via = rng.choice(["method", "function", "autoray"])
     o = ctx.call({"method": lambda: x.norm(), "function": lambda: sr.linalg.norm(x), "autoray": lambda: ar.do("linalg.norm", x)}[via])
@@ -77,6 +82,15 @@ def case_eigh(ctx, rng):
     x, feats = lingen.hermitian_matrix(ctx, rng, fermionic=False)
     if not x.blocks:
         return
+    if rng.random() < 0.12:
+        f_ = rng.choice([1e-9, 1e-12, 1e7])
+        for s_ in list(x.blocks):
+            x.blocks[s_] = x.blocks[s_] * f_
+        ctx.count("feature", "rescaled-data")
+    elif rng.random() < 0.15:
+        for s_, b_ in list(x.blocks.items()):
+            x.blocks[s_] = (np.diag(np.diag(b_).real) + 1e-9 * (b_ - np.diag(np.diag(b_)))).astype(b_.dtype)
+        ctx.count("feature", "nearly-diagonal")
     d = embed(x)
     wit = {"x": describe(x, True)}
     o = ctx.call(lambda: sr.linalg.eigh(x))
@@ -100,7 +114,8 @@ def case_eigh(ctx, rng):
     keep = sorted(keep)
     sub = d[np.ix_(keep, keep)]
     exp = np.linalg.eigvalsh(sub)
-    scale = max(1.0, float(np.abs(exp).max(initial=0)))
+    scale = float(np.abs(exp).max(initial=0)) or 1.0
+    # eigenvalue perturbation theory: accuracy relative to the matrix norm
     if got.shape != exp.shape or not np.allclose(got, exp, atol=1e-10 * scale, rtol=0):
         ctx.violation("eigenvalues", f"eigenvalues {got} != dense eigenvalues on the stored sectors {exp}", wit)
         return
@@ -136,14 +151,23 @@ def case_solve(ctx, rng):
         return
     for s, b in list(a.blocks.items()):
         a.blocks[s] = b + 3.0 * np.eye(b.shape[0])
+    fa = rng.choice([1.0, 1.0, 1.0, 1e-9, 1e6])
+    if fa != 1.0:
+        for s in list(a.blocks):
+            a.blocks[s] = a.blocks[s] * fa
     da = embed(a)
-    if da.shape[0] != da.shape[1] or abs(np.linalg.det(da)) < 1e-8:
+    if da.shape[0] != da.shape[1] or np.linalg.cond(da) > 1e6:
         ctx.count("solve", "dense-not-invertible-skipped")
         return
     kind = "static" if type(a).static_symmetry else "generic_str"
     b = gen.make_array(sr, rng, sym, [a.indices[0]], kind=kind, values=gen.Values(rng, "gauss", str(next(iter(a.blocks.values())).dtype)), sparsity=rng.choice([0.0, 0.4]))
     if not b.blocks:
         return
+    fb = rng.choice([1.0, 1.0, 1.0, 1e-9, 1e-12, 1e5])
+    if fb != 1.0:
+        for s in list(b.blocks):
+            b.blocks[s] = b.blocks[s] * fb
+        ctx.count("feature", "rescaled-data")
     wit = {"a": describe(a, True), "b": describe(b, True)}
     o = ctx.call(lambda: sr.linalg.solve(a, b))
     ctx.evaluated()
@@ -161,7 +185,7 @@ def case_solve(ctx, rng):
     except Exception as e:
         ctx.violation("solve-layout", str(e), wit)
         return
-    if not np.allclose(got, exp, atol=1e-9 * max(1.0, float(np.abs(exp).max(initial=0))), rtol=0):
+    if not np.allclose(got, exp, atol=1e-9 * (float(np.abs(exp).max(initial=0)) or 1.0), rtol=0):
         ctx.violation("solve-value", f"solution differs from numpy.linalg.solve on the dense system, max|diff| {cmp.maxdiff(got, exp)}", wit)
         return
     if len(a.blocks) >= 2:
